@@ -13,7 +13,7 @@
    number of cells the frame had when the scope was formed: the reference evaluator only sees that prefix (lexical
    scoping), the Go code sees the whole map (a closure made while a dolist/dotimes/do* frame is still being filled
    later sees the cells added afterwards).  No definition in this file is mode-dependent except through the small
-   functions [store_red], [truthy], [last_red], [locate_m], [short_args]:
+   functions [store_red], [truthy], [locate_m], [short_args]:
    they are the complete list of places where M and S differ.
 
    Side effects are calls of the harness-defined function (tr k e): evaluates e, appends k to the trace, returns
@@ -197,15 +197,6 @@ Definition truthy (m : mode) (v : val) : out bool :=
    every mode since the repair of or.go; the mode argument is kept for uniformity with the other switches) *)
 Definition or_step (m : mode) (v : val) : out (option val) :=
   Ok (if is_nil (primary v) then None else Some (primary v)).
-(* dolist / dotimes look at the object their list / count form returned: the language takes the primary value, Go
-   keeps the Values object.  (setq, a cond clause without forms and mapcar take the primary value in every mode since
-   the repairs of setq.go, cond.go and mapcar.go.) *)
-Definition last_red (m : mode) (v : val) : out val :=
-  match m with
-  | Slip => Ok v
-  | Ref => Ok (primary v)
-  | Chk => if is_values v then Er EDev else Ok v
-  end.
 (* Lambda.Call with fewer arguments than parameters binds what it has (the rest stays unbound) *)
 Definition short_args (m : mode) : out unit :=
   match m with Slip => Ok tt | Ref => Er EArity | Chk => Er EDev end.
@@ -547,17 +538,17 @@ Definition evalF (st : state) (sc : scope) (e : expr) : result :=
      of the variable is made *)
   | EDolist x l r es =>
       bind (ev st sc l) (fun v st2 =>
-      bindo (if is_values v then last_red m v else Ok v) st2 (fun v' =>
+      let v' := primary v in                               (* the first value of the form (after the repair) *)
       match list_of v' with
       | None => (Er EType, st2)
       | Some vs =>
           let '(f, st3) := alloc st2 [(x, VNil)] in
           let sc1 := (f, 1) :: sc in
           bind (ev_iter st3 sc1 f x vs es) (fun _ st4 => ev_opt (bind_in st4 f x VNil) sc1 r)
-      end))
+      end)
   | EDotimes x n r es =>
       bind (ev st sc n) (fun v st2 =>
-      bindo (if is_values v then last_red m v else Ok v) st2 (fun v' =>
+      let v' := primary v in                               (* the first value of the form (after the repair) *)
       match v' with
       | VInt k =>
           let '(f, st3) := alloc st2 [(x, VNil)] in
@@ -566,7 +557,7 @@ Definition evalF (st : state) (sc : scope) (e : expr) : result :=
                (* the variable is finally bound to the number of iterations: 0 for a negative count (after the repair) *)
                (fun _ st4 => ev_opt (bind_in st4 f x (VInt (Z.max k 0))) sc1 r)
       | _ => (Er EType, st2)
-      end))
+      end)
   | EDo false bs test rs es =>
       bind (ev_inits st sc (map (fun b => snd (fst b)) bs)) (fun vs st1 =>
       let fr := mk_frame (map (fun b => fst (fst b)) bs) vs in
